@@ -82,7 +82,7 @@ def run(ctx):
         b0 = cd["num_constants"] + c["num_routed_wires"] + c["num_wires"] + nc * (1 + cd["num_partial_products"]) + nc * cd["quotient_degree_factor"]
         sizes.append([b0, nc])
         nlogs.add(cd["fri_params"]["degree_bits"] + cd["fri_params"]["config"]["rate_bits"])
-    sizes += [[1], [3, 1], [2, 2, 2], [0, 1]]
+    sizes += [[1], [3, 1], [2, 2, 2], [0, 1], [1, 4], [2, 5], [1, 6], [3, 8], [2, 12]]   # second-batch sizes are the exponents of alpha
     final_lens = sorted({1, 2, 16, len(json.load(open(os.path.join(common.REPO, INSTANCES["testdata"][0])))["proof"]["opening_proof"]["final_poly"]["coeffs"])})
     tfiles = []
     for nlog in sorted(nlogs | {4, 9}):
